@@ -39,7 +39,7 @@ def obligations(tier, seed):
         dict(name='C02b.stmt_roundtrip', fn='stmt_roundtrip', timeout=t,
              shards=[_top(i) + q + ['c2 == %d' % c2] for i in range(16) for c2 in ((1,) if tier == 'quick' else (1, 9, 41, 63))],
              bounds='all %d statement templates x %d child kinds' % (pk.N_STMT, pk.N_CHILD)),
-        dict(name='C02d.number_print', fn='number_print_b', timeout=t, shards=[['neg == %s' % x] for x in (True, False)], bounds='see META'),
+        dict(name='C02d.number_print', fn='number_print_b', timeout=t, shards=[['b0 == True'], ['b0 == False']], bounds='see META'),
         dict(name='C02e.ministring', fn='ministring', timeout=t, shards=[['len(s) <= %d' % n, 'q == %d' % q, 'not has_surrogate(s)'] for q in range(4)],
              bounds='|s| <= %d, 4 quote styles' % n),
         dict(name='C02e.ministring_alpha', fn='ministring_alpha', timeout=t, shards=[['n <= %d' % n, 'q == %d' % q] for q in range(4)], bounds='alphabet incl. surrogates'),
